@@ -3,6 +3,7 @@ C01 — Compress then decompress returns the original packet, bit for bit.
 -/
 import Schc.Proofs.Roundtrip
 import Schc.Proofs.StackRoundtrip
+import Schc.Proofs.StackRoundtrip4
 
 namespace Schc
 
@@ -122,5 +123,30 @@ example :
     Valid6 (R 16 10) (R 128 338288524927261089654018896841347694593) (R 128 338288524927261089654018896841347694594)
       (R 16 1000) (R 16 2000) (R 16 10) (R 16 0x8eb4) [(Gen.payloadId, R 16 0x6869)] := by
   refine ⟨by decide +kernel, by decide +kernel, by decide +kernel, by decide +kernel, by decide +kernel, ⟨ABuf.ofNat 16 0x8eb4, by decide +kernel, by decide +kernel⟩⟩
+
+/-- The IPv4 / UDP stack with computed fields: any subset of IPv4 total length, IPv4 header checksum, UDP length and
+    UDP checksum may be *compute*; for packets in which those four fields are what RFC 791 / RFC 768 prescribe
+    (`Valid4`), decompress ∘ compress returns the packet bit for bit. The header checksum is computed after the total
+    length and the UDP checksum after the UDP length, as `compute_function_sort` orders them. -/
+theorem C01_ipv4_udp_compute (p : Packet) (r : Rule) (pf16 restF : List Field) (rf16 restR : List RuleField)
+    (hp : p.fields = pf16 ++ restF) (hr : r.fields = rf16 ++ restR) (h16p : pf16.length = 16) (h16r : rf16.length = 16)
+    (hids : pf16.map (·.id) = ids4)
+    (hn : r.nature = .compression) (hdir : ∀ rf ∈ r.fields, Spec.dirApplies p.dir rf.dir = true)
+    (happ : Spec.applicable p r = true) (hfit : AllFitsC p.fields r.fields)
+    (hraw : p.raw.bits = p.fields.flatMap (·.value.bits) ++ p.payload.bits)
+    (hncR : ∀ rf ∈ restR, rf.cda ≠ .compute)
+    (hvalid : Valid4 (fv pf16 0) (fv pf16 1) (fv pf16 2) (fv pf16 3) (fv pf16 4) (fv pf16 5) (fv pf16 6) (fv pf16 7) (fv pf16 8) (fv pf16 9)
+      (fv pf16 10) (fv pf16 11) (fv pf16 12) (fv pf16 13) (fv pf16 14) (fv pf16 15) (restOf restF restR p.payload)) :
+    ∃ c, compress p r = .ok c ∧ decompress c r = .ok ⟨p.raw.bits, .right⟩ :=
+  roundtrip_ipv4_udp p r pf16 restF rf16 restR hp hr h16p h16r hids hn hdir happ hfit hraw hncR hvalid
+
+/-- non-vacuity of `Valid4`: 192.168.1.10 → 10.0.0.254, DF, TTL 64, id 0x1234, ports 1000 → 2000, payload "hi":
+    total length 30, header checksum 0x5beb, UDP length 10, UDP checksum 0xbf08 -/
+example :
+    let R (w v : Nat) : ABuf := ⟨Bits.ofNat w v, .right⟩
+    Valid4 (R 4 4) (R 4 5) (R 8 0) (R 16 30) (R 16 0x1234) (R 3 2) (R 13 0) (R 8 64) (R 8 17) (R 16 0x5beb) (R 32 3232235786) (R 32 167772414)
+      (R 16 1000) (R 16 2000) (R 16 10) (R 16 0xbf08) [(Gen.payloadId, R 16 0x6869)] := by
+  refine ⟨by decide +kernel, by decide +kernel, by decide +kernel, by decide +kernel, by decide +kernel, by decide +kernel,
+    by decide +kernel, by decide +kernel, by decide +kernel, ⟨ABuf.ofNat 16 0xbf08, by decide +kernel, by decide +kernel⟩⟩
 
 end Schc
